@@ -13,11 +13,13 @@
 //	#msg  name description                                sorted by name
 //	#dc   id address                                      sorted by id
 //	E id code text | impl... | expect...
-//	   impl   = P <panic text>            | ok <message> <info> <code> <description>
+//	   impl   = P <panic text> - - - -    | ok <message> <info> <code> <description> <errtext>
+//	   errtext = ok | lost:<hex> | injected:<hex>    does Error() carry the description verbatim, without fmt diagnostics around it
 //	   info   = nil | i:<decimal> | s:<hex> | o:<Go type>
-//	   expect = ? | plain | shape <message> <n>   | name <description>      (direct oracle, independent of the Coq model)
+//	   expect = ? | plain | shape <message> <n>   | name <description> | spot <message> <info> <exact description or -> <keywords>
+//	            (direct oracle, independent of the Coq model; spot = hand-typed table of well-known errors, independent of errorMessages)
 //	F id format arg(i:<n> | s:<hex>) | <fmt.Sprintf output>                  (validates the model of the std-lib function)
-//	M id dcs code text | impl = P <text> | <class> <address afterwards>
+//	M id dcs code text | impl = P <text> - | <class> <address afterwards> <errtext of the returned error>
 //	D id dcs message info | same
 //	   dcs    = id=hexaddr,id=hexaddr,... or "-"
 //	   class  = self (the error itself returned) | nodc (error wrapping it returned, address unchanged)
@@ -58,6 +60,22 @@ func infoStr(v interface{}) string {
 	}
 }
 
+// errText: is the text of an error free of formatting accidents?  The text must contain the
+// description verbatim, and what is left around it must not carry fmt's own diagnostics
+// (%!verb(...), (MISSING), (EXTRA ...)): an error text that went through Sprintf as a FORMAT would.
+// Wording and layout of the text are not judged.
+func errText(text, description string) string {
+	i := strings.Index(text, description)
+	if i < 0 {
+		return "lost:" + vc.HexS(text)
+	}
+	rest := text[:i] + text[i+len(description):]
+	if strings.Contains(rest, "%!") || strings.Contains(rest, "(MISSING)") || strings.Contains(rest, "(EXTRA ") {
+		return "injected:" + vc.HexS(text)
+	}
+	return "ok"
+}
+
 // runE returns the impl fields of an E case.
 func runE(code int32, text string) []string {
 	var res []string
@@ -66,18 +84,18 @@ func runE(code int32, text string) []string {
 		err := mtproto.RpcErrorToNative(&objects.RpcError{ErrorCode: code, ErrorMessage: text})
 		e, ok := err.(*mtproto.ErrResponseCode)
 		if !ok {
-			res = []string{"ok", "-", fmt.Sprintf("o:%T", err), "0", "-"}
+			res = []string{"ok", "-", fmt.Sprintf("o:%T", err), "0", "-", "-"}
 			return
 		}
 		if e.Message != name || infoStr(e.AdditionalInfo) != infoStr(data) {
 			// the two entry points must tell the same story
-			res = []string{"ok", vc.HexS(e.Message), "o:TryExpandError-differs:" + vc.HexS(name) + "/" + infoStr(data), strconv.Itoa(e.Code), vc.HexS(e.Description)}
+			res = []string{"ok", vc.HexS(e.Message), "o:TryExpandError-differs:" + vc.HexS(name) + "/" + infoStr(data), strconv.Itoa(e.Code), vc.HexS(e.Description), "-"}
 			return
 		}
-		res = []string{"ok", vc.HexS(e.Message), infoStr(e.AdditionalInfo), strconv.Itoa(e.Code), vc.HexS(e.Description)}
+		res = []string{"ok", vc.HexS(e.Message), infoStr(e.AdditionalInfo), strconv.Itoa(e.Code), vc.HexS(e.Description), errText(e.Error(), e.Description)}
 	})
 	if panicked {
-		return []string{"P", vc.HexS(fmt.Sprint(val)), "-", "-", "-"}
+		return []string{"P", vc.HexS(fmt.Sprint(val)), "-", "-", "-", "-"}
 	}
 	return res
 }
@@ -115,15 +133,16 @@ func fmtDCs(m map[int]string) string {
 }
 
 func classify(e *mtproto.ErrResponseCode, addr string, err error) []string {
+	et := "-"
 	switch {
 	case addr != origin:
-		return []string{"switch", vc.HexS(addr)}
+		return []string{"switch", vc.HexS(addr), et}
 	case err == error(e):
-		return []string{"self", vc.HexS(addr)}
+		return []string{"self", vc.HexS(addr), errText(err.Error(), e.Description)}
 	case err != nil && errors.Cause(err) == error(e):
-		return []string{"nodc", vc.HexS(addr)}
+		return []string{"nodc", vc.HexS(addr), errText(err.Error(), e.Description)}
 	default:
-		return []string{"other", vc.HexS(addr)}
+		return []string{"other", vc.HexS(addr), et}
 	}
 }
 
@@ -134,7 +153,7 @@ func runProcess(dcs map[int]string, e *mtproto.ErrResponseCode) []string {
 		res = classify(e, addr, err)
 	})
 	if panicked {
-		return []string{"P", vc.HexS(fmt.Sprint(val))}
+		return []string{"P", vc.HexS(fmt.Sprint(val)), "-"}
 	}
 	return res
 }
@@ -146,7 +165,7 @@ func runM(dcs map[int]string, code int32, text string) []string {
 		e = mtproto.RpcErrorToNative(&objects.RpcError{ErrorCode: code, ErrorMessage: text}).(*mtproto.ErrResponseCode)
 	})
 	if panicked {
-		return []string{"P", vc.HexS(fmt.Sprint(val))}
+		return []string{"P", vc.HexS(fmt.Sprint(val)), "-"}
 	}
 	return runProcess(dcs, e)
 }
@@ -390,6 +409,84 @@ func (g *gen) catalogue() {
 	}
 }
 
+// spot: well-known errors typed by hand from the public Telegram error lists (code, text as the
+// server sends it) with the documented description - independent of errorMessages.  "exact" is
+// given only where the wording is the one the public list (as known to the author of this
+// harness) and needs no guess; otherwise only words any description of that error must contain.
+type spotRow struct {
+	code     int32
+	text     string
+	message  string // expected Message ("" = the text itself)
+	info     string // expected AdditionalInfo
+	exact    string
+	keywords []string
+}
+
+var spotTable = []spotRow{
+	{420, "FLOOD_WAIT_42", "FLOOD_WAIT_X", "i:42", "A wait of 42 seconds is required", []string{"wait", "42", "second"}},
+	{303, "PHONE_MIGRATE_4", "PHONE_MIGRATE_X", "i:4", "The phone number a user is trying to use for authorization is associated with DC 4", []string{"phone", "DC 4"}},
+	{303, "NETWORK_MIGRATE_3", "NETWORK_MIGRATE_X", "i:3", "The source IP address is associated with DC 3", []string{"IP", "DC 3"}},
+	{303, "USER_MIGRATE_5", "USER_MIGRATE_X", "i:5", "The user whose identity is being used to execute queries is associated with DC 5", []string{"user", "DC 5"}},
+	{303, "FILE_MIGRATE_1", "FILE_MIGRATE_X", "i:1", "The file to be accessed is currently stored in DC 1", []string{"file", "DC 1"}},
+	{401, "SESSION_PASSWORD_NEEDED", "", "nil", "Two-steps verification is enabled and a password is required", []string{"password"}},
+	{401, "AUTH_KEY_UNREGISTERED", "", "nil", "The key is not registered in the system", []string{"key", "not registered"}},
+	{401, "USER_DEACTIVATED", "", "nil", "The user has been deleted/deactivated", []string{"user", "deactivated"}},
+	{401, "SESSION_REVOKED", "", "nil", "The authorization has been invalidated, because of the user terminating all sessions", []string{"authorization", "session"}},
+	{401, "SESSION_EXPIRED", "", "nil", "The authorization has expired", []string{"authorization", "expired"}},
+	{400, "PHONE_CODE_EXPIRED", "", "nil", "The confirmation code has expired", []string{"code", "expired"}},
+	{400, "PHONE_NUMBER_INVALID", "", "nil", "The phone number is invalid", []string{"phone number", "invalid"}},
+	{400, "PHONE_NUMBER_OCCUPIED", "", "nil", "The phone number is already in use", []string{"phone number", "already"}},
+	{400, "PASSWORD_HASH_INVALID", "", "nil", "The password (and thus its hash value) you entered is invalid", []string{"password", "invalid"}},
+	{400, "USERNAME_OCCUPIED", "", "nil", "The username is already taken", []string{"username", "already"}},
+	{400, "USERNAME_NOT_OCCUPIED", "", "nil", "The username is not in use by anyone else yet", []string{"username", "not"}},
+	{400, "CHANNEL_PRIVATE", "", "nil", "The channel specified is private and you lack permission to access it. Another reason may be that you were banned from it", []string{"channel", "private"}},
+	{400, "MESSAGE_NOT_MODIFIED", "", "nil", "Content of the message was not modified", []string{"message", "not modified"}},
+	// wording differs between the public lists: words only
+	{401, "AUTH_KEY_INVALID", "", "nil", "", []string{"key", "invalid"}},
+	{400, "PHONE_CODE_INVALID", "", "nil", "", []string{"code", "invalid"}},
+	{400, "PHONE_CODE_EMPTY", "", "nil", "", []string{"code"}},
+	{400, "PHONE_NUMBER_BANNED", "", "nil", "", []string{"phone number", "banned"}},
+	{400, "PHONE_NUMBER_UNOCCUPIED", "", "nil", "", []string{"number"}},
+	{400, "API_ID_INVALID", "", "nil", "", []string{"api", "invalid"}},
+	{400, "CHAT_ADMIN_REQUIRED", "", "nil", "", []string{"admin"}},
+	{400, "PEER_ID_INVALID", "", "nil", "", []string{"peer", "invalid"}},
+	{400, "USER_IS_BLOCKED", "", "nil", "", []string{"blocked"}},
+	{403, "CHAT_WRITE_FORBIDDEN", "", "nil", "", []string{"write", "chat"}},
+	{400, "FILE_PART_7_MISSING", "FILE_PART_X_MISSING", "i:7", "", []string{"part 7", "missing"}},
+	{420, "SLOWMODE_WAIT_30", "SLOWMODE_WAIT_X", "i:30", "", []string{"wait", "30", "second"}},
+}
+
+func (g *gen) spot() {
+	for _, r := range spotTable {
+		msg := r.message
+		if msg == "" {
+			msg = r.text
+		}
+		exact := "-"
+		if r.exact != "" {
+			exact = vc.HexS(r.exact)
+		}
+		kw := make([]string, 0, len(r.keywords))
+		for _, k := range r.keywords {
+			kw = append(kw, vc.HexS(k))
+		}
+		g.emitE(r.code, r.text, []string{"spot", vc.HexS(msg), r.info, exact, strings.Join(kw, ",")}, "spot-oracle")
+	}
+}
+
+// texts with formatting characters: unknown names, and names of rows
+var pctTexts = []string{"%", "%d", "%s", "%v", "%%", "%!x", "%!d(MISSING)", "100% SURE", "ERR_%d_%s", "%s%s%s%s%s%s%s%s%n", "%[1]d", "%*d", "%-5d%",
+	"FLOOD_WAIT_%d", "FLOOD_WAIT_%v", "PHONE_MIGRATE_%d", "FILE_PART_%d_MISSING", "INTERDC_%s_CALL_ERROR", "%d_FLOOD_WAIT_5", "FLOOD_WAIT_5%d",
+	"ABOUT_TOO_LONG%d", "%(EXTRA int=5)", "%!(NOVERB)", "\x00%d", "%c%c%c", "%x", "%q", "%T", "%p", "%U", "%e", "%+v", "%#v"}
+
+func (g *gen) percent() {
+	for _, t := range pctTexts {
+		for _, code := range []int32{400, 420, 303, 0, -1} {
+			g.emitE(code, t, []string{"plain"}, "percent-text")
+		}
+	}
+}
+
 const soup = "%dvsX_-+ 0159AFLOW\x00\n!()[]#*."
 
 func (g *gen) randomText() string {
@@ -523,6 +620,7 @@ func (g *gen) migrate(n int) {
 	for id := -2; id <= 12; id++ {
 		texts = append(texts, "PHONE_MIGRATE_"+strconv.Itoa(id))
 	}
+	texts = append(texts, pctTexts...)
 	texts = append(texts, "PHONE_MIGRATE_X", "PHONE_MIGRATE_", "PHONE_MIGRATE", "PHONE_MIGRATE_2 ", "phone_migrate_2",
 		"PHONE_MIGRATE_9223372036854775807", "PHONE_MIGRATE_2147483648",
 		"USER_MIGRATE_2", "NETWORK_MIGRATE_2", "FILE_MIGRATE_2", "STATS_MIGRATE_2", "FLOOD_WAIT_2", "FLOOD_WAIT_abc",
@@ -576,6 +674,8 @@ func main() {
 			g.emitE(420, t, unknown, "corpus")
 		}
 		full := tier == "thorough"
+		g.spot()
+		g.percent()
 		if full {
 			g.rowsTimesParams(3000)
 		} else {
